@@ -385,6 +385,7 @@ class Inliner:
                     taken.add(n.arg)
                 elif isinstance(n, ast.FunctionDef):
                     taken.add(n.name)
+            taken |= getattr(self, 'allocated', set())
         else:
             taken = None
 
@@ -392,6 +393,8 @@ class Inliner:
             # the helper's own name for a local is kept when the caller does not use that name (reports and name-based bindings read naturally)
             if taken is not None and base not in taken:
                 taken.add(base)
+                if getattr(self, 'allocated', None) is not None:
+                    self.allocated.add(base)        # statements of earlier expansions are not attached to the function yet
                 return base
             return base + tag
         local = set()
@@ -446,6 +449,7 @@ class Inliner:
 
     def process_function(self, fn, cls, depth=0):
         self.top_owner = fn         # names of the whole enclosing function are reserved (a nested def must not have its free variables shadowed)
+        self.allocated = set()
         try:
             fn.body = self.process_block(fn.body, cls, depth, fn)
         finally:
@@ -955,8 +959,12 @@ class UnrollLiteral(ast.NodeTransformer):
         import copy
         out = []
         for s in stmts:
+            def _chain(e):
+                while isinstance(e, ast.Attribute):
+                    e = e.value
+                return isinstance(e, (ast.Name, ast.Constant))
             if isinstance(s, ast.For) and isinstance(s.target, ast.Name) and not s.orelse and isinstance(s.iter, (ast.Tuple, ast.List)) and 1 <= len(s.iter.elts) <= 4 \
-                    and all(isinstance(e, (ast.Name, ast.Constant)) for e in s.iter.elts):
+                    and all(_chain(e) for e in s.iter.elts):
                 v = s.target.id
                 bad = False
                 for st in s.body:
